@@ -75,6 +75,34 @@ Proof.
   assert (i = j) by (eapply nodup_ids_nth; eauto). subst. tauto.
 Qed.
 
+Lemma id_mem_in x l : id_mem x l = true <-> In x l.
+Proof.
+  unfold id_mem. rewrite existsb_exists. split.
+  - intros [y [Hy E]]. apply N.eqb_eq in E. subst. exact Hy.
+  - intros H. exists x. split; auto. apply N.eqb_refl.
+Qed.
+
+Lemma filter_offered_incl l : forall seen, incl (filter_offered seen l) l.
+Proof.
+  induction l as [|u r IH]; intros seen; cbn [filter_offered]; [apply incl_refl|].
+  destruct (id_mem (u_id u) seen).
+  - apply incl_tl. apply IH.
+  - intros x [<-|Hx]; [left; reflexivity|right; apply (IH _ x Hx)].
+Qed.
+
+Lemma filter_offered_nodup l : forall seen,
+  NoDup (ids (filter_offered seen l)) /\ (forall x, In x (ids (filter_offered seen l)) -> ~ In x seen).
+Proof.
+  induction l as [|u r IH]; intros seen; cbn [filter_offered].
+  - split; [constructor|intros x []].
+  - destruct (id_mem (u_id u) seen) eqn:E; [apply IH|].
+    destruct (IH (u_id u :: seen)) as [Hn Hd]. unfold ids in *. cbn [map]. split.
+    + constructor; auto. intro Hin. apply (Hd _ Hin). left; reflexivity.
+    + intros x [<-|Hx].
+      * intro Hin. apply id_mem_in in Hin. congruence.
+      * intro Hin. apply (Hd _ Hx). right; exact Hin.
+Qed.
+
 Section Sound.
   Variable min_fee : imap -> result N.
   Variable ffi : imap -> utxo -> result N.
@@ -131,25 +159,25 @@ Section Sound.
   Qed.
 
   (* from the invariant to the clauses of the specification *)
-  Lemma clauses_of_inv offered sc it0 ot0 f0 st' excl :
+  Lemma clauses_of_inv eff sc it0 ot0 f0 st' excl :
     let m0 := imap_of_list (sc_pre sc) in
-    distinct_outpoints offered sc ->
+    distinct_outpoints eff sc ->
     min_fee m0 = Ok f0 ->
     (forall s, Q s it0 = sumQ s (map u_val m0) + Q s (sc_implicit sc) + Q s (sc_mint sc)) ->
     (forall s, Q s ot0 = demand s sc f0) ->
-    Inv ffi offered m0 it0 ot0 st' -> NoDup (st_trace st') ->
+    Inv ffi eff m0 it0 ot0 st' -> NoDup (st_trace st') ->
     coin (st_out st') <= coin (st_in st') ->
     (excl = false -> forall p n, Q (ByAsset p n) (st_out st') <= Q (ByAsset p n) (st_in st')) ->
-    sound_result min_fee ffi excl offered sc st'.
+    sound_result min_fee ffi excl eff eff sc st'.
   Proof.
     intros m0 Hd Hf Qi0 Qo0 I Hn Hc Ha.
     destruct I as [Iin [fees [Ifee Iout]] Iq Iwi Iwo Iidx].
-    set (added := added_utxos offered (st_trace st')) in *.
+    set (added := added_utxos eff (st_trace st')) in *.
     unfold distinct_outpoints in Hd.
-    assert (Hnd_off : NoDup (ids offered)) by (eapply NoDup_app_l; eauto).
+    assert (Hnd_off : NoDup (ids eff)) by (eapply NoDup_app_l; eauto).
     assert (Hnd_pre : NoDup (ids (sc_pre sc))) by (eapply NoDup_app_r; eauto).
     assert (Hnd_added : NoDup (ids added)) by (apply nodup_added; auto).
-    assert (Hincl : incl added offered).
+    assert (Hincl : incl added eff).
     { intros u Hu. apply added_in in Hu. destruct Hu as [i [_ Hi]]. eapply nth_error_In; eauto. }
     assert (Hm0 : Permutation m0 (sc_pre sc)) by (apply imap_of_list_perm; auto).
     assert (Hall : NoDup (ids m0 ++ ids added)).
@@ -181,29 +209,63 @@ Section Sound.
         rewrite Hdem. apply Ha. exact He.
   Qed.
 
-  Theorem sound_current strat cs offered sc st' :
-    scenario_wf offered sc -> distinct_outpoints offered sc ->
-    add_inputs_from min_fee ffi current strat cs offered sc = (st', Done tt) ->
-    sound_result min_fee ffi (burn_class strat sc) offered sc st'.
+
+  Lemma sound_result_weaken excl offered eff sc st' :
+    incl eff offered -> sound_result min_fee ffi excl eff eff sc st' -> sound_result min_fee ffi excl offered eff sc st'.
   Proof.
-    intros Hwf Hd H.
-    assert (Hnd_pre : NoDup (ids (sc_pre sc))) by (eapply NoDup_app_r; eauto).
-    unfold add_inputs_from in H.
+    intros Hi [[Hn Hm] R]. split; [|exact R]. split; [exact Hn|]. intros u Hu. apply Hi. apply Hm. exact Hu.
+  Qed.
+
+  Lemma asset_guard_covers st : asset_guard st = true -> forall p n, Q (ByAsset p n) (st_out st) <= Q (ByAsset p n) (st_in st).
+  Proof.
+    unfold asset_guard. intros H p n. cbn [Q]. unfold qty at 1, opt_ma_qty.
+    destruct (multiasset_of (st_out st)) as [m|]; [|lia].
+    destruct (N.eq_dec (ma_qty m p n) 0) as [E|E]; [rewrite E; lia|].
+    pose proof (qty_in_entries m p n E) as Hin. rewrite forallb_forall in H. specialize (H _ Hin). cbn in H.
+    apply N.leb_le in H. exact H.
+  Qed.
+
+  (* everything a successful run establishes *)
+  Lemma select_inv strat cs offered sc st' :
+    scenario_wf offered sc -> pre_distinct sc ->
+    add_inputs_from min_fee ffi current strat cs offered sc = (st', Done tt) ->
+    let eff := effective_offered current offered sc in
+    let m0 := imap_of_list (sc_pre sc) in
+    exists it0 ot0 f0,
+      incl eff offered /\ distinct_outpoints eff sc /\
+      min_fee m0 = Ok f0 /\
+      (forall s, Q s it0 = sumQ s (map u_val m0) + Q s (sc_implicit sc) + Q s (sc_mint sc)) /\
+      (forall s, Q s ot0 = demand s sc f0) /\
+      Inv ffi eff m0 it0 ot0 st' /\ NoDup (st_trace st') /\
+      coin (st_out st') <= coin (st_in st') /\
+      (forall p n, Q (ByAsset p n) (st_out st') <= Q (ByAsset p n) (st_in st')).
+  Proof.
+    intros Hwf Hnd_pre H eff m0. unfold pre_distinct in Hnd_pre.
+    unfold add_inputs_from in H. fold eff in H.
+    assert (Heff : eff = filter_offered (imap_ids (imap_of_list (sc_pre sc))) offered) by reflexivity.
+    clearbody eff.
     destruct (initial_state min_fee sc) as [st0 x0] eqn:E0. ob H. destruct a.
     destruct (initial_ok _ _ _ Hwf Hnd_pre E0) as [it0 [ot0 [f0 [Hst0 [Wi [Wo [Hf [Qi0 Qo0]]]]]]]].
-    cbn zeta in *. set (m0 := imap_of_list (sc_pre sc)) in *.
-    pose proof (proj1 Hwf) as Woff.
-    assert (I0 : Inv ffi offered m0 it0 ot0 st0).
+    cbn zeta in *. fold m0 in Hst0, Hf, Qi0.
+    fold m0 in Heff.
+    assert (Hincl : incl eff offered) by (rewrite Heff; apply filter_offered_incl).
+    assert (Hd : distinct_outpoints eff sc).
+    { unfold distinct_outpoints. destruct (filter_offered_nodup offered (imap_ids m0)) as [Hn Hdis]. rewrite <- Heff in *.
+      apply NoDup_app_intro; auto. intros x Hx Hp. apply (Hdis x Hx).
+      apply (Permutation_in _ (Permutation_sym (Permutation_map u_id (imap_of_list_perm _ Hnd_pre)))). exact Hp. }
+    assert (Woff : Forall (fun u => value_wf (u_val u)) eff).
+    { apply Forall_forall. intros u Hu. pose proof (proj1 Hwf) as W. rewrite Forall_forall in W. apply W. apply Hincl. exact Hu. }
+    exists it0, ot0, f0.
+    assert (I0 : Inv ffi eff m0 it0 ot0 st0).
     { subst st0. constructor; cbn [st_inputs st_in st_out st_trace added_utxos flat_map insert_all fold_left map]; auto.
       - exists 0. split; [reflexivity|]. intros s. destruct s; cbn [coin_only]; lia.
       - intros s. unfold sumQ. cbn [fold_right]. lia. }
-    (* the pre-step *)
-    destruct (prestep ffi current offered st0) as [avail [st1 x1]] eqn:Epre. unfold prestep in Epre.
-    ob H. destruct a. unfold run_strategy in H.
-    assert (Hpre : (forall i u, nth_error avail i = Some u -> nth_error offered i = Some u) /\
-                   Inv ffi offered m0 it0 ot0 st1 /\ Bk (seq 0 (length avail)) st1).
+    destruct (prestep ffi current eff st0) as [avail [st1 x1]] eqn:Epre. unfold prestep in Epre.
+    ob H. destruct a.
+    assert (Hpre : (forall i u, nth_error avail i = Some u -> nth_error eff i = Some u) /\
+                   Inv ffi eff m0 it0 ot0 st1 /\ Bk (seq 0 (length avail)) st1).
     { destruct ((coin (st_out st0) <=? coin (st_in st0)) && is_nil (st_inputs st0)).
-      - destruct (rev offered) as [|u r] eqn:Er; [inversion Epre; subst; discriminate|].
+      - destruct (rev eff) as [|u r] eqn:Er; [inversion Epre; subst; discriminate|].
         destruct (rev_last_nth _ _ _ Er) as [Hu Hrl].
         injection Epre as Ha Hadd. subst avail. cbn [v_prestep_fee current] in Hadd.
         destruct (add_input_ok _ _ Woff _ _ _ _ _ _ _ I0 Hu Hadd) as [I1 [Ht _]].
@@ -213,8 +275,8 @@ Section Sound.
           * apply seq_NoDup.
           * rewrite Ht. subst st0. cbn. repeat constructor. intros [].
           * intros i Hi. rewrite Ht. subst st0. cbn. intros [<-|[]]. apply in_seq in Hi.
-            assert (length (removelast offered) = (length offered - 1)%nat).
-            { rewrite Hrl, rev_length. rewrite <- (rev_length offered), Er. cbn. lia. }
+            assert (length (removelast eff) = (length eff - 1)%nat).
+            { rewrite Hrl, rev_length. rewrite <- (rev_length eff), Er. cbn. lia. }
             lia.
       - inversion Epre; subst. conj; auto. constructor.
         + apply seq_NoDup.
@@ -222,61 +284,76 @@ Section Sound.
         + intros i _ []. }
     destruct Hpre as [Havail [I1 B1]].
     pose proof (sset_seq 0 (length avail)) as S1.
-    (* assets of the target never change: they are those of get_total_output *)
-    assert (Hout_assets : forall st, Inv ffi offered m0 it0 ot0 st -> forall p n,
-               Q (ByAsset p n) (st_out st) = sumQ (ByAsset p n) (map o_val (sc_outputs sc)) + qty (sc_burn sc) p n).
-    { intros st [_ [fees [_ Io]] _ _ _ _] p n. rewrite Io, Qo0. unfold demand. cbn [coin_only Q]. lia. }
-    assert (Hin_mono : forall st, Inv ffi offered m0 it0 ot0 st -> forall s, Q s it0 <= Q s (st_in st)).
-    { intros st [_ _ Iq _ _ _] s. rewrite Iq. lia. }
-    destruct strat.
-    - (* LargestFirst *)
-      destruct (outputs_have_assets sc) eqn:Eoa; [discriminate H|].
-      unfold drop_locals in H. destruct (lf_by ffi ByCoin avail (seq 0 (length avail)) st1) as [st2 r2] eqn:X2.
-      destruct r2 as [aidx| | | |]; cbn [ob] in H; try discriminate H. inversion H; subst st2; clear H.
-      destruct (lf_by_ok _ _ Woff _ _ _ _ Havail _ _ _ _ _ I1 B1 X2) as [I' [B' [_ [_ [_ Hc]]]]].
-      eapply clauses_of_inv; eauto; [apply B'|].
-      intros Hb p n. rewrite (Hout_assets _ I' p n). rewrite (outputs_no_assets sc Eoa).
-      unfold burn_class in Hb. cbn [strategy_eqb negb andb] in Hb. rewrite (no_asset_qty _ Hb). lia.
-    - (* RandomImprove *)
-      destruct (outputs_have_assets sc) eqn:Eoa; [discriminate H|].
-      destruct (ri_by ffi current ByCoin true avail (sc_outputs sc) (seq 0 (length avail)) cs st1) as [st2 x2] eqn:X2.
-      ob H. destruct a as [aset cs2].
-      destruct (ri_by_ok _ _ Woff _ _ _ _ Havail _ _ _ _ _ _ _ _ _ I1 B1 S1 X2) as [I2 [B2 [S2 _]]].
-      destruct (phase3_ok _ _ Woff _ _ _ _ Havail _ _ _ _ _ I2 B2 H) as [I' [Hn' [Hc' _]]].
-      eapply clauses_of_inv; eauto.
-      intros Hb p n. rewrite (Hout_assets _ I' p n). rewrite (outputs_no_assets sc Eoa).
-      unfold burn_class in Hb. cbn [strategy_eqb negb andb] in Hb. rewrite (no_asset_qty _ Hb). lia.
-    - (* LargestFirstMultiAsset *)
-      destruct (lf_multi ffi (asset_selectors (st_out st1)) avail (seq 0 (length avail)) st1) as [st2 x2] eqn:X2.
-      ob H. unfold drop_locals in H.
-      destruct (lf_by ffi ByCoin avail a st2) as [st3 r3] eqn:X3.
-      destruct r3 as [aidx| | | |]; cbn [ob] in H; try discriminate H. inversion H; subst st3; clear H.
-      destruct (lf_multi_ok _ _ Woff _ _ _ _ Havail _ _ _ _ _ I1 B1 X2) as [I2 [B2 [_ [_ [Ho2 Hc2]]]]].
-      destruct (lf_by_ok _ _ Woff _ _ _ _ Havail _ _ _ _ _ I2 B2 X3) as [I' [B' [_ [Hm3 [Ho3 Hc3]]]]].
-      eapply clauses_of_inv; eauto; [apply B'|].
-      intros _ p n. destruct (N.eq_dec (Q (ByAsset p n) (st_out st')) 0) as [Ez|Enz]; [rewrite Ez; lia|].
-      rewrite Ho3, Ho2 in Enz. cbn [Q] in Enz. apply selectors_complete in Enz.
-      specialize (Hc2 p n Enz). specialize (Hm3 (ByAsset p n)). rewrite Ho3. lia.
-    - (* RandomImproveMultiAsset *)
-      destruct (ri_multi ffi current (asset_selectors (st_out st1)) avail (sc_outputs sc) (seq 0 (length avail)) cs st1) as [st2 x2] eqn:X2.
-      ob H. destruct a as [aset cs2].
-      destruct (ri_by ffi current ByCoin false avail (sc_outputs sc) aset cs2 st2) as [st3 x3] eqn:X3.
-      ob H. destruct a as [aset3 cs3].
-      destruct (ri_multi_ok _ _ Woff _ _ _ _ Havail _ _ _ _ _ _ _ _ I1 B1 S1 X2) as [I2 [B2 [S2 [_ [_ [Ho2 Hc2]]]]]].
-      destruct (ri_by_ok _ _ Woff _ _ _ _ Havail _ _ _ _ _ _ _ _ _ I2 B2 S2 X3) as [I3 [B3 [S3 [_ [Hm3 [Ho3 _]]]]]].
-      destruct (phase3_ok _ _ Woff _ _ _ _ Havail _ _ _ _ _ I3 B3 H) as [I' [Hn' [Hc' [Hm' Ho']]]].
-      eapply clauses_of_inv; eauto.
-      intros Hb p n. destruct (N.eq_dec (Q (ByAsset p n) (st_out st')) 0) as [Ez|Enz]; [rewrite Ez; lia|].
-      assert (Hsel : In (ByAsset p n) (asset_selectors (st_out st1))).
-      { rewrite Ho', Ho3, Ho2 in Enz. cbn [Q] in Enz. apply selectors_complete. exact Enz. }
-      specialize (Hc2 _ Hsel). specialize (Hm3 (ByAsset p n)). specialize (Hm' (ByAsset p n)).
-      rewrite (Hout_assets _ I' p n).
-      unfold burn_class in Hb. cbn [strategy_eqb negb andb] in Hb. rewrite (no_asset_qty _ Hb). lia.
+    destruct (run_strategy ffi current strat cs avail sc st1) as [stR xR] eqn:Erun. ob H. destruct a.
+    cbn [v_asset_guard current andb] in H.
+    destruct (asset_guard stR) eqn:Eg; cbn [negb] in H; [|discriminate H]. inversion H; subst stR; clear H.
+    assert (R : Inv ffi eff m0 it0 ot0 st' /\ NoDup (st_trace st') /\ coin (st_out st') <= coin (st_in st')).
+    { unfold run_strategy in Erun. destruct strat.
+      - destruct (outputs_have_assets sc); [discriminate Erun|].
+        unfold drop_locals in Erun. destruct (lf_by ffi ByCoin avail (seq 0 (length avail)) st1) as [st2 r2] eqn:X2.
+        destruct r2 as [aidx| | | |]; cbn [ob] in Erun; try discriminate Erun. inversion Erun; subst st2; clear Erun.
+        destruct (lf_by_ok _ _ Woff _ _ _ _ Havail _ _ _ _ _ I1 B1 X2) as [I' [B' [_ [_ [_ Hc]]]]].
+        conj; auto. apply B'.
+      - destruct (outputs_have_assets sc); [discriminate Erun|].
+        destruct (ri_by ffi current ByCoin true avail (sc_outputs sc) (seq 0 (length avail)) cs st1) as [st2 x2] eqn:X2.
+        ob Erun. destruct a as [aset cs2].
+        destruct (ri_by_ok _ _ Woff _ _ _ _ Havail _ _ _ _ _ _ _ _ _ I1 B1 S1 X2) as [I2 [B2 [S2 _]]].
+        destruct (phase3_ok _ _ Woff _ _ _ _ Havail _ _ _ _ _ I2 B2 Erun) as [I' [Hn' [Hc' _]]]. conj; auto.
+      - destruct (lf_multi ffi (asset_selectors (st_out st1)) avail (seq 0 (length avail)) st1) as [st2 x2] eqn:X2.
+        ob Erun. unfold drop_locals in Erun.
+        destruct (lf_by ffi ByCoin avail a st2) as [st3 r3] eqn:X3.
+        destruct r3 as [aidx| | | |]; cbn [ob] in Erun; try discriminate Erun. inversion Erun; subst st3; clear Erun.
+        destruct (lf_multi_ok _ _ Woff _ _ _ _ Havail _ _ _ _ _ I1 B1 X2) as [I2 [B2 _]].
+        destruct (lf_by_ok _ _ Woff _ _ _ _ Havail _ _ _ _ _ I2 B2 X3) as [I' [B' [_ [_ [_ Hc3]]]]].
+        conj; auto. apply B'.
+      - destruct (ri_multi ffi current (asset_selectors (st_out st1)) avail (sc_outputs sc) (seq 0 (length avail)) cs st1) as [st2 x2] eqn:X2.
+        ob Erun. destruct a as [aset cs2].
+        destruct (ri_by ffi current ByCoin false avail (sc_outputs sc) aset cs2 st2) as [st3 x3] eqn:X3.
+        ob Erun. destruct a as [aset3 cs3].
+        destruct (ri_multi_ok _ _ Woff _ _ _ _ Havail _ _ _ _ _ _ _ _ I1 B1 S1 X2) as [I2 [B2 [S2 _]]].
+        destruct (ri_by_ok _ _ Woff _ _ _ _ Havail _ _ _ _ _ _ _ _ _ I2 B2 S2 X3) as [I3 [B3 _]].
+        destruct (phase3_ok _ _ Woff _ _ _ _ Havail _ _ _ _ _ I3 B3 Erun) as [I' [Hn' [Hc' _]]]. conj; auto. }
+    destruct R as [I' [Hn' Hc']]. conj; auto.
+    apply asset_guard_covers. exact Eg.
   Qed.
 
-  (* ----------------------------------------------------------------------------------------- *)
-  (* Largest-first at the level of add_inputs_from (strategy LargestFirst), when more lovelace is needed than the
-     builder already holds (so that the "at least one input" pre-step does not fire) *)
+  (* C08_sound: no premise on the offered list *)
+  Theorem sound_current strat cs offered sc st' :
+    scenario_wf offered sc -> pre_distinct sc ->
+    add_inputs_from min_fee ffi current strat cs offered sc = (st', Done tt) ->
+    sound_result min_fee ffi false offered (effective_offered current offered sc) sc st'.
+  Proof.
+    intros Hwf Hp H.
+    destruct (select_inv _ _ _ _ _ Hwf Hp H) as [it0 [ot0 [f0 [Hincl [Hd [Hf [Qi0 [Qo0 [I' [Hn' [Hc' Ha']]]]]]]]]]].
+    apply sound_result_weaken; auto.
+    eapply clauses_of_inv; eauto.
+  Qed.
+
+  Lemma required_fee_final added : forall m fee,
+    fee_additive min_fee ffi -> required_fee min_fee ffi m added = Ok fee -> min_fee (insert_all added m) = Ok fee.
+  Proof.
+    induction added as [|u r IH]; intros m fee Ha H; unfold required_fee in H; cbn [marginal_fees insert_all fold_left] in *.
+    - destruct (min_fee m) as [f0| | |]; cbn [bind] in H; try discriminate H. inversion H; subst. f_equal. lia.
+    - destruct (min_fee m) as [f0| | |] eqn:E0; cbn [bind] in H; try discriminate H.
+      destruct (ffi m u) as [f| | |] eqn:Ef; cbn [bind] in H; try discriminate H.
+      destruct (marginal_fees ffi (imap_insert u m) r) as [fs| | |] eqn:Er; cbn [bind] in H; try discriminate H.
+      inversion H; subst. apply IH; auto. unfold required_fee. rewrite (Ha _ _ _ Ef _ E0). cbn [bind].
+      rewrite Er. cbn [bind]. f_equal. lia.
+  Qed.
+
+
+  Theorem sound_current_min_fee strat cs offered sc st' :
+    fee_additive min_fee ffi ->
+    scenario_wf offered sc -> pre_distinct sc ->
+    add_inputs_from min_fee ffi current strat cs offered sc = (st', Done tt) ->
+    exists fee, min_fee (st_inputs st') = Ok fee /\ covers_coin sc (st_inputs st') fee.
+  Proof.
+    intros Ha Hwf Hp H.
+    pose proof (sound_current _ _ _ _ _ Hwf Hp H) as [_ [_ [fee [Hf [Hc _]]]]].
+    exists fee. split; auto.
+    destruct (select_inv _ _ _ _ _ Hwf Hp H) as [it0 [ot0 [f0 [_ [_ [_ [_ [_ [I' _]]]]]]]]].
+    rewrite (inv_inputs _ _ _ _ _ _ I'). apply required_fee_final; auto.
+  Qed.
 
   Lemma initial_trace sc st0 : initial_state min_fee sc = (st0, Done tt) -> st_trace st0 = [] /\ st_inputs st0 = imap_of_list (sc_pre sc).
   Proof.
@@ -286,87 +363,11 @@ Section Sound.
     inversion H; subst. split; reflexivity.
   Qed.
 
-  Lemma lf_top_unfold cs offered sc st0 st' r :
-    initial_state min_fee sc = (st0, Done tt) -> coin (st_in st0) < coin (st_out st0) ->
-    add_inputs_from min_fee ffi current LargestFirst cs offered sc = (st', r) ->
-    (outputs_have_assets sc = true /\ st' = st0 /\ r = Failed) \/
-    (outputs_have_assets sc = false /\ exists r', lf_by ffi ByCoin offered (seq 0 (length offered)) st0 = (st', r') /\
-                                               r = ob r' (fun _ => Done tt)).
-  Proof.
-    intros E0 Hlt H. unfold add_inputs_from in H. rewrite E0 in H. cbn [obind] in H.
-    unfold prestep in H. apply N.leb_gt in Hlt. rewrite Hlt in H. cbn [andb obind] in H.
-    unfold run_strategy in H. destruct (outputs_have_assets sc).
-    - left. inversion H; subst. auto.
-    - right. split; auto. unfold drop_locals in H.
-      destruct (lf_by ffi ByCoin offered (seq 0 (length offered)) st0) as [st2 r2]. inversion H; subst. eauto.
-  Qed.
-
   Lemma has_key_coin offered j : has_key ByCoin offered j = true <-> (j < length offered)%nat.
   Proof.
     unfold has_key. destruct (nth_error offered j) as [u|] eqn:E.
     - cbn. split; auto. intros _. apply nth_error_Some. congruence.
     - split; [discriminate|]. intros Hj. apply nth_error_None in E. lia.
-  Qed.
-
-  Theorem lf_order_top cs offered sc st0 st' r :
-    initial_state min_fee sc = (st0, Done tt) -> coin (st_in st0) < coin (st_out st0) ->
-    add_inputs_from min_fee ffi current LargestFirst cs offered sc = (st', r) ->
-    desc_sorted (key_of ByCoin offered) (st_trace st') /\
-    (forall i, In i (st_trace st') -> (i < length offered)%nat) /\
-    (forall i j, In i (st_trace st') -> (j < length offered)%nat -> ~ In j (st_trace st') ->
-                 key_of ByCoin offered j <= key_of ByCoin offered i).
-  Proof.
-    intros E0 Hlt H. destruct (initial_trace _ _ E0) as [Ht0 _].
-    destruct (lf_top_unfold _ _ _ _ _ _ E0 Hlt H) as [[_ [-> _]]|[_ [r' [Hlf _]]]].
-    - rewrite Ht0. conj; [constructor|intros i []|intros i j []].
-    - destruct (largest_first_order ffi offered offered (fun _ _ E => E) _ _ _ _ _ Hlf) as [taken [Htr [S1 [S2 S3]]]].
-      rewrite Ht0 in Htr. cbn [app] in Htr. rewrite Htr. conj; auto.
-      + intros i Hi. apply has_key_coin. apply S2. exact Hi.
-      + intros i j Hi Hj Hnj. apply S3; auto. apply in_seq. lia. apply has_key_coin. exact Hj.
-  Qed.
-
-  Lemma sound_setup offered sc st0 :
-    scenario_wf offered sc -> distinct_outpoints offered sc ->
-    initial_state min_fee sc = (st0, Done tt) ->
-    exists it0 ot0 f0, let m0 := imap_of_list (sc_pre sc) in
-      st0 = mkSt m0 it0 ot0 [] /\ min_fee m0 = Ok f0 /\
-      (forall s, Q s it0 = sumQ s (map u_val m0) + Q s (sc_implicit sc) + Q s (sc_mint sc)) /\
-      (forall s, Q s ot0 = demand s sc f0) /\
-      Inv ffi offered m0 it0 ot0 st0.
-  Proof.
-    intros Hwf Hd E0.
-    assert (Hnd_pre : NoDup (ids (sc_pre sc))) by (eapply NoDup_app_r; eauto).
-    destruct (initial_ok _ _ _ Hwf Hnd_pre E0) as [it0 [ot0 [f0 [Hst0 [Wi [Wo [Hf [Qi0 Qo0]]]]]]]].
-    exists it0, ot0, f0. cbn zeta in *. conj; auto.
-    subst st0. constructor; cbn [st_inputs st_in st_out st_trace added_utxos flat_map insert_all fold_left map]; auto.
-    - exists 0. split; [reflexivity|]. intros s. destruct s; cbn [coin_only]; lia.
-    - intros s. unfold sumQ. cbn [fold_right]. lia.
-  Qed.
-
-  (* no proper prefix of the selected inputs covers outputs + fee *)
-  Theorem lf_minimal_top cs offered sc st0 st' :
-    scenario_wf offered sc -> distinct_outpoints offered sc ->
-    initial_state min_fee sc = (st0, Done tt) -> coin (st_in st0) < coin (st_out st0) ->
-    add_inputs_from min_fee ffi current LargestFirst cs offered sc = (st', Done tt) ->
-    forall k, (k < length (st_trace st'))%nat ->
-      let before := imap_of_list (sc_pre sc) in
-      let prefix := added_utxos offered (firstn k (st_trace st')) in
-      exists fk, required_fee min_fee ffi before prefix = Ok fk /\ ~ covers_coin sc (before ++ prefix) fk.
-  Proof.
-    intros Hwf Hd E0 Hlt H k Hk.
-    destruct (sound_setup _ _ _ Hwf Hd E0) as [it0 [ot0 [f0 [Hst0 [Hf [Qi0 [Qo0 I0]]]]]]]. cbn zeta in *.
-    destruct (lf_top_unfold _ _ _ _ _ _ E0 Hlt H) as [[_ [_ Hr]]|[_ [r' [Hlf Hr]]]]; [discriminate Hr|].
-    destruct r' as [aidx'| | | |]; cbn [ob] in Hr; try discriminate Hr.
-    destruct (largest_first_minimal ffi offered (proj1 Hwf) _ _ _ offered (fun _ _ E => E) _ _ _ _ _ I0 Hlf)
-      as [taken [Htr [Hmin _]]].
-    subst st0. cbn [st_trace app] in Htr. rewrite Htr in *.
-    destruct (Hmin k Hk) as [fk [Hfk Hltk]]. cbn [st_inputs st_in st_out] in *.
-    exists (f0 + fk). split.
-    - unfold required_fee. rewrite Hf. cbn [bind]. rewrite Hfk. reflexivity.
-    - unfold covers_coin, covers_q, supply. rewrite map_app, sumQ_app.
-      specialize (Qi0 ByCoin). specialize (Qo0 ByCoin).
-      replace (demand ByCoin sc (f0 + fk)) with (demand ByCoin sc f0 + fk) by (unfold demand; cbn [coin_only]; lia).
-      cbn [coin_only] in Hltk. lia.
   Qed.
 
   Lemma filter_all {A} (f : A -> bool) l : (forall x, In x l -> f x = true) -> filter f l = l.
@@ -394,30 +395,138 @@ Section Sound.
   Qed.
 
   (* insufficiency is reported only after every offered UTxO has been added, and they do not cover outputs + fee *)
+  (* ----------------------------------------------------------------------------------------- *)
+  (* Largest-first at the level of add_inputs_from (strategy LargestFirst), when more lovelace is needed than the
+     builder already holds (so that the "at least one input" pre-step does not fire).  Positions refer to the
+     effective offered list (offered UTxOs not yet in the builder, each outpoint once). *)
+
+  Definition lf_outcome (st' : sel_state) (r' : outcome (list nat)) : outcome unit :=
+    match r' with
+    | Done _ => if asset_guard st' then Done tt else Insufficient
+    | Insufficient => Insufficient | Failed => Failed | Panicked => Panicked | Fuel => Fuel
+    end.
+
+  Lemma lf_top_unfold cs offered sc st0 st' r :
+    initial_state min_fee sc = (st0, Done tt) -> coin (st_in st0) < coin (st_out st0) ->
+    add_inputs_from min_fee ffi current LargestFirst cs offered sc = (st', r) ->
+    let eff := effective_offered current offered sc in
+    (outputs_have_assets sc = true /\ st' = st0 /\ r = Failed) \/
+    (outputs_have_assets sc = false /\ exists r', lf_by ffi ByCoin eff (seq 0 (length eff)) st0 = (st', r') /\
+                                               r = lf_outcome st' r').
+  Proof.
+    intros E0 Hlt H eff. unfold add_inputs_from in H. fold eff in H. rewrite E0 in H. cbn [obind] in H.
+    unfold prestep in H. apply N.leb_gt in Hlt. rewrite Hlt in H. cbn [andb obind] in H.
+    unfold run_strategy in H. destruct (outputs_have_assets sc).
+    - left. cbn [obind] in H. inversion H; subst. auto.
+    - right. split; auto. unfold drop_locals in H.
+      destruct (lf_by ffi ByCoin eff (seq 0 (length eff)) st0) as [st2 r2]. exists r2.
+      destruct r2; cbn [ob obind] in H; try (inversion H; subst; split; reflexivity).
+      cbn [v_asset_guard current andb] in H. destruct (asset_guard st2) eqn:Eg; cbn [negb] in H; inversion H; subst;
+        split; try reflexivity; unfold lf_outcome; rewrite Eg; reflexivity.
+  Qed.
+
+  Theorem lf_order_top cs offered sc st0 st' r :
+    initial_state min_fee sc = (st0, Done tt) -> coin (st_in st0) < coin (st_out st0) ->
+    add_inputs_from min_fee ffi current LargestFirst cs offered sc = (st', r) ->
+    let eff := effective_offered current offered sc in
+    desc_sorted (key_of ByCoin eff) (st_trace st') /\
+    (forall i, In i (st_trace st') -> (i < length eff)%nat) /\
+    (forall i j, In i (st_trace st') -> (j < length eff)%nat -> ~ In j (st_trace st') ->
+                 key_of ByCoin eff j <= key_of ByCoin eff i).
+  Proof.
+    intros E0 Hlt H eff. destruct (initial_trace _ _ E0) as [Ht0 _].
+    pose proof (lf_top_unfold _ _ _ _ _ _ E0 Hlt H) as U. cbn zeta in U. fold eff in U.
+    destruct U as [[_ [-> _]]|[_ [r' [Hlf _]]]].
+    - rewrite Ht0. conj; [constructor|intros i []|intros i j []].
+    - destruct (largest_first_order ffi eff eff (fun _ _ E => E) _ _ _ _ _ Hlf) as [taken [Htr [S1 [S2 S3]]]].
+      rewrite Ht0 in Htr. cbn [app] in Htr. rewrite Htr. conj; auto.
+      + intros i Hi. apply has_key_coin. apply S2. exact Hi.
+      + intros i j Hi Hj Hnj. apply S3; auto. apply in_seq. lia. apply has_key_coin. exact Hj.
+  Qed.
+
+  Lemma sound_setup offered sc st0 :
+    scenario_wf offered sc -> pre_distinct sc ->
+    initial_state min_fee sc = (st0, Done tt) ->
+    let eff := effective_offered current offered sc in
+    exists it0 ot0 f0, let m0 := imap_of_list (sc_pre sc) in
+      st0 = mkSt m0 it0 ot0 [] /\ min_fee m0 = Ok f0 /\
+      Forall (fun u => value_wf (u_val u)) eff /\
+      (forall s, Q s it0 = sumQ s (map u_val m0) + Q s (sc_implicit sc) + Q s (sc_mint sc)) /\
+      (forall s, Q s ot0 = demand s sc f0) /\
+      Inv ffi eff m0 it0 ot0 st0.
+  Proof.
+    intros Hwf Hnd_pre E0 eff.
+    destruct (initial_ok _ _ _ Hwf Hnd_pre E0) as [it0 [ot0 [f0 [Hst0 [Wi [Wo [Hf [Qi0 Qo0]]]]]]]].
+    exists it0, ot0, f0. cbn zeta in *.
+    assert (Woff : Forall (fun u => value_wf (u_val u)) eff).
+    { apply Forall_forall. intros u Hu. pose proof (proj1 Hwf) as W. rewrite Forall_forall in W. apply W.
+      apply (filter_offered_incl offered _ u Hu). }
+    conj; auto.
+    subst st0. constructor; cbn [st_inputs st_in st_out st_trace added_utxos flat_map insert_all fold_left map]; auto.
+    - exists 0. split; [reflexivity|]. intros s. destruct s; cbn [coin_only]; lia.
+    - intros s. unfold sumQ. cbn [fold_right]. lia.
+  Qed.
+
+  (* no proper prefix of the selected inputs covers outputs + fee *)
+  Theorem lf_minimal_top cs offered sc st0 st' :
+    scenario_wf offered sc -> pre_distinct sc ->
+    initial_state min_fee sc = (st0, Done tt) -> coin (st_in st0) < coin (st_out st0) ->
+    add_inputs_from min_fee ffi current LargestFirst cs offered sc = (st', Done tt) ->
+    forall k, (k < length (st_trace st'))%nat ->
+      let eff := effective_offered current offered sc in
+      let before := imap_of_list (sc_pre sc) in
+      let prefix := added_utxos eff (firstn k (st_trace st')) in
+      exists fk, required_fee min_fee ffi before prefix = Ok fk /\ ~ covers_coin sc (before ++ prefix) fk.
+  Proof.
+    intros Hwf Hd E0 Hlt H k Hk eff.
+    destruct (sound_setup _ _ _ Hwf Hd E0) as [it0 [ot0 [f0 [Hst0 [Hf [Woff [Qi0 [Qo0 I0]]]]]]]]. cbn zeta in *. fold eff in Woff, I0.
+    pose proof (lf_top_unfold _ _ _ _ _ _ E0 Hlt H) as U. cbn zeta in U. fold eff in U.
+    destruct U as [[_ [_ Hr]]|[_ [r' [Hlf Hr]]]]; [discriminate Hr|].
+    destruct r' as [aidx'| | | |]; cbn [lf_outcome] in Hr; try discriminate Hr.
+    destruct (largest_first_minimal ffi eff Woff _ _ _ eff (fun _ _ E => E) _ _ _ _ _ I0 Hlf)
+      as [taken [Htr [Hmin _]]].
+    subst st0. cbn [st_trace app] in Htr. rewrite Htr in *.
+    destruct (Hmin k Hk) as [fk [Hfk Hltk]]. cbn [st_inputs st_in st_out] in *.
+    exists (f0 + fk). split.
+    - unfold required_fee. rewrite Hf. cbn [bind]. rewrite Hfk. reflexivity.
+    - unfold covers_coin, covers_q, supply. rewrite map_app, sumQ_app.
+      specialize (Qi0 ByCoin). specialize (Qo0 ByCoin).
+      replace (demand ByCoin sc (f0 + fk)) with (demand ByCoin sc f0 + fk) by (unfold demand; cbn [coin_only]; lia).
+      cbn [coin_only] in Hltk. lia.
+  Qed.
+
+  (* insufficiency is reported only after every (effective) offered UTxO has been added and they do not cover outputs +
+     fee — or, since /repo ab61362, because an asset of the target (which this ADA-only strategy does not select
+     for) is not covered *)
   Theorem lf_complete_top cs offered sc st0 st' :
-    scenario_wf offered sc -> distinct_outpoints offered sc ->
+    scenario_wf offered sc -> pre_distinct sc ->
     initial_state min_fee sc = (st0, Done tt) -> coin (st_in st0) < coin (st_out st0) ->
     add_inputs_from min_fee ffi current LargestFirst cs offered sc = (st', Insufficient) ->
+    let eff := effective_offered current offered sc in
     let before := imap_of_list (sc_pre sc) in
-    let added := added_utxos offered (st_trace st') in
-    Permutation added offered /\
-    exists fee, required_fee min_fee ffi before added = Ok fee /\ ~ covers_coin sc (before ++ offered) fee.
+    let added := added_utxos eff (st_trace st') in
+    asset_guard st' = false \/
+    (Permutation added eff /\
+     exists fee, required_fee min_fee ffi before added = Ok fee /\ ~ covers_coin sc (before ++ eff) fee).
   Proof.
-    intros Hwf Hd E0 Hlt H.
-    destruct (sound_setup _ _ _ Hwf Hd E0) as [it0 [ot0 [f0 [Hst0 [Hf [Qi0 [Qo0 I0]]]]]]]. cbn zeta in *.
-    destruct (lf_top_unfold _ _ _ _ _ _ E0 Hlt H) as [[_ [_ Hr]]|[_ [r' [Hlf Hr]]]]; [discriminate Hr|].
-    destruct r' as [aidx'| | | |]; cbn [ob] in Hr; try discriminate Hr.
-    destruct (largest_first_complete ffi offered (proj1 Hwf) _ _ _ offered (fun _ _ E => E) _ _ _ _ I0 Hlf)
+    intros Hwf Hd E0 Hlt H eff.
+    destruct (sound_setup _ _ _ Hwf Hd E0) as [it0 [ot0 [f0 [Hst0 [Hf [Woff [Qi0 [Qo0 I0]]]]]]]]. cbn zeta in *. fold eff in Woff, I0.
+    pose proof (lf_top_unfold _ _ _ _ _ _ E0 Hlt H) as U. cbn zeta in U. fold eff in U.
+    destruct U as [[_ [_ Hr]]|[_ [r' [Hlf Hr]]]]; [discriminate Hr|].
+    destruct r' as [aidx'| | | |]; cbn [lf_outcome] in Hr; try discriminate Hr.
+    { destruct (asset_guard st'); [discriminate Hr|]. left. reflexivity. }
+    right.
+    destruct (largest_first_complete ffi eff Woff _ _ _ eff (fun _ _ E => E) _ _ _ _ I0 Hlf)
       as [Htr [I' Hunc]].
     subst st0. cbn [st_trace app] in Htr.
-    assert (Hperm : Permutation (st_trace st') (seq 0 (length offered))).
+    assert (Hperm : Permutation (st_trace st') (seq 0 (length eff))).
     { rewrite Htr. unfold lf_relevant.
-      apply Permutation_trans with (stable_sort (key_of ByCoin offered) (filter (has_key ByCoin offered) (seq 0 (length offered)))).
+      apply Permutation_trans with (stable_sort (key_of ByCoin eff) (filter (has_key ByCoin eff) (seq 0 (length eff)))).
       - apply Permutation_sym, Permutation_rev.
       - eapply Permutation_trans; [apply stable_sort_perm|].
         rewrite filter_all; [reflexivity|]. intros x Hx. apply has_key_coin. apply in_seq in Hx. lia. }
-    assert (Hadded : Permutation (added_utxos offered (st_trace st')) offered).
-    { rewrite <- (added_seq offered) at 2. apply added_perm. exact Hperm. }
+    assert (Hadded : Permutation (added_utxos eff (st_trace st')) eff).
+    { rewrite <- (added_seq eff) at 2. apply added_perm. exact Hperm. }
     split; [exact Hadded|].
     destruct I' as [_ [fees [Ifee Iout]] Iq _ _ _].
     exists (f0 + fees). split.
@@ -428,84 +537,35 @@ Section Sound.
       replace (demand ByCoin sc (f0 + fees)) with (demand ByCoin sc f0 + fees) by (unfold demand; cbn [coin_only]; lia).
       cbn [coin_only] in Iout. lia.
   Qed.
-
-  (* ----------------------------------------------------------------------------------------- *)
-  (* with additive fees the required fee is the minimum fee of the resulting builder *)
-  Lemma required_fee_final added : forall m fee,
-    fee_additive min_fee ffi -> required_fee min_fee ffi m added = Ok fee -> min_fee (insert_all added m) = Ok fee.
-  Proof.
-    induction added as [|u r IH]; intros m fee Ha H; unfold required_fee in H; cbn [marginal_fees insert_all fold_left] in *.
-    - destruct (min_fee m) as [f0| | |]; cbn [bind] in H; try discriminate H. inversion H; subst. f_equal. lia.
-    - destruct (min_fee m) as [f0| | |] eqn:E0; cbn [bind] in H; try discriminate H.
-      destruct (ffi m u) as [f| | |] eqn:Ef; cbn [bind] in H; try discriminate H.
-      destruct (marginal_fees ffi (imap_insert u m) r) as [fs| | |] eqn:Er; cbn [bind] in H; try discriminate H.
-      inversion H; subst. apply IH; auto. unfold required_fee. rewrite (Ha _ _ _ Ef _ E0). cbn [bind].
-      rewrite Er. cbn [bind]. f_equal. lia.
-  Qed.
-
-  Theorem sound_current_min_fee strat cs offered sc st' :
-    fee_additive min_fee ffi ->
-    scenario_wf offered sc -> distinct_outpoints offered sc ->
-    add_inputs_from min_fee ffi current strat cs offered sc = (st', Done tt) ->
-    exists fee, min_fee (st_inputs st') = Ok fee /\ covers_coin sc (st_inputs st') fee.
-  Proof.
-    intros Ha Hwf Hd H.
-    pose proof (sound_current _ _ _ _ _ Hwf Hd H) as [_ [_ [fee [Hf [Hc _]]]]].
-    exists fee. split; auto.
-    (* the input map is the initial one with the added UTxOs inserted *)
-    assert (Hnd_pre : NoDup (ids (sc_pre sc))) by (eapply NoDup_app_r; eauto).
-    assert (Hin : st_inputs st' = insert_all (added_utxos offered (st_trace st')) (imap_of_list (sc_pre sc))).
-    { clear Hf Hc. unfold add_inputs_from in H.
-      destruct (initial_state min_fee sc) as [st0 x0] eqn:E0. ob H. destruct a.
-      destruct (sound_setup _ _ _ Hwf Hd E0) as [it0 [ot0 [f0 [Hst0 [_ [_ [_ I0]]]]]]]. cbn zeta in *.
-      pose proof (proj1 Hwf) as Woff.
-      destruct (prestep ffi current offered st0) as [avail [st1 x1]] eqn:Epre. unfold prestep in Epre.
-      ob H. destruct a.
-      assert (Hpre : (forall i u, nth_error avail i = Some u -> nth_error offered i = Some u) /\
-                     Inv ffi offered (imap_of_list (sc_pre sc)) it0 ot0 st1 /\ Bk (seq 0 (length avail)) st1).
-      { destruct ((coin (st_out st0) <=? coin (st_in st0)) && is_nil (st_inputs st0)).
-        - destruct (rev offered) as [|u r] eqn:Er; [inversion Epre; subst; discriminate|].
-          destruct (rev_last_nth _ _ _ Er) as [Hu Hrl].
-          injection Epre as Ha' Hadd. subst avail. cbn [v_prestep_fee current] in Hadd.
-          destruct (add_input_ok _ _ Woff _ _ _ _ _ _ _ I0 Hu Hadd) as [I1 [Ht _]].
-          conj; auto.
-          + intros i x. apply removelast_prefix.
-          + constructor.
-            * apply seq_NoDup.
-            * rewrite Ht. subst st0. cbn. repeat constructor. intros [].
-            * intros i Hi. rewrite Ht. subst st0. cbn. intros [<-|[]]. apply in_seq in Hi.
-              assert (length (removelast offered) = (length offered - 1)%nat).
-              { rewrite Hrl, rev_length. rewrite <- (rev_length offered), Er. cbn. lia. }
-              lia.
-        - inversion Epre; subst. conj; auto. constructor.
-          + apply seq_NoDup.
-          + cbn. constructor.
-          + intros i _ []. }
-      destruct Hpre as [Havail [I1 B1]].
-      pose proof (sset_seq 0 (length avail)) as S1.
-      unfold run_strategy in H. destruct strat.
-      - destruct (outputs_have_assets sc); [discriminate H|].
-        unfold drop_locals in H. destruct (lf_by ffi ByCoin avail (seq 0 (length avail)) st1) as [st2 r2] eqn:X2.
-        destruct r2 as [aidx| | | |]; cbn [ob] in H; try discriminate H. inversion H; subst st2; clear H.
-        destruct (lf_by_ok _ _ Woff _ _ _ _ Havail _ _ _ _ _ I1 B1 X2) as [I' _]. apply I'.
-      - destruct (outputs_have_assets sc); [discriminate H|].
-        destruct (ri_by ffi current ByCoin true avail (sc_outputs sc) (seq 0 (length avail)) cs st1) as [st2 x2] eqn:X2.
-        ob H. destruct a as [aset cs2].
-        destruct (ri_by_ok _ _ Woff _ _ _ _ Havail _ _ _ _ _ _ _ _ _ I1 B1 S1 X2) as [I2 [B2 [S2 _]]].
-        destruct (phase3_ok _ _ Woff _ _ _ _ Havail _ _ _ _ _ I2 B2 H) as [I' _]. apply I'.
-      - destruct (lf_multi ffi (asset_selectors (st_out st1)) avail (seq 0 (length avail)) st1) as [st2 x2] eqn:X2.
-        ob H. unfold drop_locals in H.
-        destruct (lf_by ffi ByCoin avail a st2) as [st3 r3] eqn:X3.
-        destruct r3 as [aidx| | | |]; cbn [ob] in H; try discriminate H. inversion H; subst st3; clear H.
-        destruct (lf_multi_ok _ _ Woff _ _ _ _ Havail _ _ _ _ _ I1 B1 X2) as [I2 [B2 _]].
-        destruct (lf_by_ok _ _ Woff _ _ _ _ Havail _ _ _ _ _ I2 B2 X3) as [I' _]. apply I'.
-      - destruct (ri_multi ffi current (asset_selectors (st_out st1)) avail (sc_outputs sc) (seq 0 (length avail)) cs st1) as [st2 x2] eqn:X2.
-        ob H. destruct a as [aset cs2].
-        destruct (ri_by ffi current ByCoin false avail (sc_outputs sc) aset cs2 st2) as [st3 x3] eqn:X3.
-        ob H. destruct a as [aset3 cs3].
-        destruct (ri_multi_ok _ _ Woff _ _ _ _ Havail _ _ _ _ _ _ _ _ I1 B1 S1 X2) as [I2 [B2 [S2 _]]].
-        destruct (ri_by_ok _ _ Woff _ _ _ _ Havail _ _ _ _ _ _ _ _ _ I2 B2 S2 X3) as [I3 [B3 _]].
-        destruct (phase3_ok _ _ Woff _ _ _ _ Havail _ _ _ _ _ I3 B3 H) as [I' _]. apply I'. }
-    rewrite Hin. apply required_fee_final; auto.
-  Qed.
 End Sound.
+
+(* ------------------------------------------------------------------------------------------- *)
+(* fee_for_input as the code defines it: additive by construction, for every fee request *)
+
+Lemma derived_additive min_fee : fee_additive min_fee (derived_ffi min_fee).
+Proof.
+  intros m u f Hf f0 H0. unfold derived_ffi in Hf. rewrite H0 in Hf. cbn [bind] in Hf.
+  destruct (u_ok u); [|discriminate Hf].
+  destruct (min_fee (imap_insert u m)) as [b| | |]; cbn [bind] in Hf; try discriminate Hf.
+  destruct (f0 <=? b) eqn:E; [|discriminate Hf]. inversion Hf; subst. apply N.leb_le in E. f_equal. lia.
+Qed.
+
+Lemma fee_model_derived raw req m u :
+  fee_for_input_of raw req two32 m u = derived_ffi (min_fee_of raw req) m u.
+Proof.
+  unfold fee_for_input_of, derived_ffi, min_fee_of.
+  destruct (raw (final_fee req two32) m) as [a| | |]; cbn [bind]; try reflexivity.
+  destruct (u_ok u); [|reflexivity].
+  destruct (raw (final_fee req two32) (imap_insert u m)) as [b| | |]; cbn [bind]; reflexivity.
+Qed.
+
+(* for the fee functions of the builder (any raw estimate, any fee request): the inputs cover outputs + min_fee() of the
+   resulting builder; no premise on the fees *)
+Theorem sound_current_fee_model raw req strat cs offered sc st' :
+  scenario_wf offered sc -> pre_distinct sc ->
+  add_inputs_from (min_fee_of raw req) (fee_for_input_of raw req two32) current strat cs offered sc = (st', Done tt) ->
+  exists fee, min_fee_of raw req (st_inputs st') = Ok fee /\ covers_coin sc (st_inputs st') fee.
+Proof.
+  intros Hwf Hp H. eapply sound_current_min_fee; eauto.
+  intros m u f Hf. rewrite fee_model_derived in Hf. apply (derived_additive _ m u f Hf).
+Qed.
